@@ -102,7 +102,8 @@ pub fn build_rig(spec: &MachineSpec) -> Rig {
     let mut kbd = None;
     let mut display = None;
     if let Some(q) = &spec.kbd {
-        let k = BufferedKeyboard::default();
+        // both constructors are used (a keyboard starts with interrupts disabled either way)
+        let k = if q.len() % 2 == 1 { BufferedKeyboard::new(Arc::new(std::sync::RwLock::new(std::collections::VecDeque::new()))) } else { BufferedKeyboard::default() };
         k.get_buffer().write().unwrap().extend(q.iter().copied());
         kbd = Some(Arc::clone(k.get_buffer()));
         sim.device_handler.set_keyboard(k);
